@@ -177,15 +177,27 @@ func kindName(k string) string {
 
 func genVector(e *isaspec.Entry) {
 	name := strings.TrimSuffix(e.Name, "@cdna3")
-	type variant struct {
-		enc string
-	}
 	encs := []string{"e32", "e64"}
 	if e.OnlyE64 {
 		encs = []string{""}
 	}
 	if e.NoVOP3 {
 		encs = []string{"noenc"}
+	}
+	if name == "v_and_b32" || name == "v_or_b32" || name == "v_xor_b32" {
+		sels := []string{"BYTE_0", "BYTE_1", "BYTE_2", "BYTE_3", "WORD_0", "WORD_1", "DWORD"}
+		for _, ds := range sels {
+			for _, du := range []string{"UNUSED_PAD", "UNUSED_SEXT", "UNUSED_PRESERVE"} {
+				add("sdwa:dst", "%s_sdwa v10, v20, v30 dst_sel:%s dst_unused:%s src0_sel:DWORD src1_sel:DWORD", name, ds, du)
+			}
+		}
+		for _, s0 := range sels {
+			for _, s1 := range sels {
+				add("sdwa:src", "%s_sdwa v10, v20, v30 dst_sel:DWORD dst_unused:UNUSED_PAD src0_sel:%s src1_sel:%s", name, s0, s1)
+			}
+		}
+		add("sdwa:mix", "%s_sdwa v10, v20, v30 dst_sel:BYTE_1 dst_unused:UNUSED_PRESERVE src0_sel:BYTE_3 src1_sel:WORD_1", name)
+		add("sdwa:alias", "%s_sdwa v20, v20, v30 dst_sel:WORD_1 dst_unused:UNUSED_PRESERVE src0_sel:WORD_0 src1_sel:WORD_0", name)
 	}
 	for _, enc := range encs {
 		mn := name
@@ -458,6 +470,36 @@ func assemble(cpu string, cands []cand) (ok []string, rejected []cand) {
 	return
 }
 
+// handEncoded are the few CDNA3-only forms that LLVM 14 cannot assemble
+// (gfx940 is not available): V_LSHL_ADD_U64 is VOP3A opcode 520 (0x208); the
+// words are laid out by hand from the VOP3A field table (cdna3_insts.pdf 13.3.4:
+// VDST[7:0] ABS[10:8] CLAMP[15] OP[25:16] 110100[31:26]; SRC0[40:32] SRC1[49:41]
+// SRC2[58:50] OMOD[60:59] NEG[63:61]) and cross-checked against llvm-mc's
+// encoding of v_lshl_add_u32 (opcode 0x1fd) with the same operands.
+func handEncoded() []string {
+	enc := func(op, vdst, s0, s1, s2 int) string {
+		w0 := uint32(0xd0000000) | uint32(op)<<16 | uint32(vdst)
+		w1 := uint32(s0) | uint32(s1)<<9 | uint32(s2)<<18
+		b := []byte{byte(w0), byte(w0 >> 8), byte(w0 >> 16), byte(w0 >> 24), byte(w1), byte(w1 >> 8), byte(w1 >> 16), byte(w1 >> 24)}
+		return fmt.Sprintf("%x", b)
+	}
+	v := func(n int) int { return 256 + n }
+	var out []string
+	add := func(group, text string, s0, s1, s2 int) {
+		out = append(out, enc(0x208, 10, s0, s1, s2)+"\t"+group+"\t"+text)
+	}
+	add("hand:base", "v_lshl_add_u64 v[10:11], v[20:21], v30, v[40:41]", v(20), v(30), v(40))
+	for k, c := range []int{128, 129, 130, 131, 132} {
+		add("hand:src1=inlineint", fmt.Sprintf("v_lshl_add_u64 v[10:11], v[20:21], %d, v[40:41]", k), v(20), c, v(40))
+	}
+	add("hand:src2=sgpr", "v_lshl_add_u64 v[10:11], v[20:21], v30, s[20:21]", v(20), v(30), 20)
+	add("hand:src0=sgpr", "v_lshl_add_u64 v[10:11], s[20:21], v30, v[40:41]", 20, v(30), v(40))
+	add("hand:alias:dst=src0", "v_lshl_add_u64 v[20:21], v[20:21], v30, v[40:41]", v(20), v(30), v(40))
+	// the last line needs vdst=20
+	out[len(out)-1] = strings.Replace(out[len(out)-1], "0a00", "1400", 1)
+	return out
+}
+
 func main() {
 	dir := "isaspec/testdata"
 	if len(os.Args) > 1 {
@@ -515,6 +557,9 @@ func main() {
 				continue
 			}
 			lines = append(lines, l)
+		}
+		if tgt.arch == isaspec.CDNA3 {
+			lines = append(lines, handEncoded()...)
 		}
 		hdr := fmt.Sprintf("# %s encodings by llvm-mc-14 -arch=amdgcn -mcpu=%s -show-encoding; generated by isaspec/gen; %d forms\n", tgt.arch, tgt.cpu, len(lines))
 		os.WriteFile(fmt.Sprintf("%s/%s.tbl", dir, tgt.cpu), []byte(hdr+strings.Join(lines, "\n")+"\n"), 0o644)
